@@ -117,7 +117,7 @@ class MatEngine:
         if g is None:
             return None
         rets = g.return_values()
-        if len(rets) != 1:
+        if len(rets) != 1 or not self.prog.straight_line(g):
             return None
         args = call[2]
         bad = []
